@@ -26,7 +26,7 @@ RULE = ("one run = 1-4 clients with scripts of REGISTER / MAYBE_UNLINK / UNREGIS
         "was still held, or a client was killed holding registrations")
 REAL_CODE = ["joblib.externals.loky.backend.resource_tracker.main (command loop, clean-up at EOF, folders last)",
              "os.unlink / shutil.rmtree on a real scratch directory"]
-STUBBED = ["the command pipe: a reader object delivering the merged client lines (pipe writes of <= 512 bytes are atomic, "
+STUBBED = ["(a small real tier runs the same scripts against a real tracker process with real client processes and SIGKILL, judging the final state)", "the command pipe: a reader object delivering the merged client lines (pipe writes of <= 512 bytes are atomic, "
            "so the unit of interleaving is the line)", "client processes: scripts"]
 ASSUMPTIONS = ["a killed client simply stops sending; its write end closes; EOF is seen when every client is gone",
                "deleting a tracked folder legitimately deletes what it contains"]
@@ -72,12 +72,142 @@ def gen_case(rng):
     return {"events": events, "n_clients": nclients}
 
 
+N_REAL = {"quick": 16, "thorough": 600}
+
+
 def plan(tier, seed):
+    # a small real end-to-end tier first (real tracker process, real client processes, real SIGKILL):
+    # cross-check of the pipe / EOF model the simulation rests on
+    for i in range(N_REAL[tier] if not os.environ.get("VERIF_RUNS") else 4):
+        yield dict(gen_case(random.Random(H(seed, PROP, "real", i))), real=True)
     for i in range(hz_runs(N_RUNS, tier)):
         yield gen_case(random.Random(H(seed, PROP, i)))
 
 
+def _line(root, ev):
+    _, c, cmd, name, rtype = ev
+    if cmd == "RAW":
+        return (name + "\n").encode("utf-8")
+    p = os.path.join(root, name) if not name.isdigit() else name
+    return ("%s:%s:%s\n" % (cmd, p, rtype)).encode("ascii")
+
+
+def run_real_case(case):
+    """Same scripts against the REAL tracker process; only the final state can be judged."""
+    import signal, time, json, struct
+    from joblib.externals.loky.backend import resource_tracker as rt
+    warnings.simplefilter("ignore")
+    root = tempfile.mkdtemp(prefix="c20r_", dir="/dev/shm")
+    try:
+        for d in FOLDERS + ["decoydir", "cwd"]:
+            os.mkdir(os.path.join(root, d))
+        for f in FILES + ["decoy", "decoydir/x", "bystander"]:
+            open(os.path.join(root, f), "w").close()
+        os.chdir(os.path.join(root, "cwd"))
+        os.environ["PYTHONPATH"] = REPO
+        devnull = os.open(os.devnull, os.O_WRONLY)
+        os.dup2(devnull, 2)                       # the tracker warns about leaks on stderr
+        tracker = rt.ResourceTracker()
+        tracker.ensure_running()
+        fd, tpid = tracker._fd, tracker._pid
+        clients = {}
+        for c in range(case["n_clients"]):
+            r_cmd, w_cmd = os.pipe(); r_ack, w_ack = os.pipe()
+            pid = os.fork()
+            if pid == 0:
+                try:
+                    os.close(w_cmd); os.close(r_ack)
+                    while True:
+                        h = os.read(r_cmd, 4)
+                        if len(h) < 4:
+                            break
+                        n = struct.unpack("I", h)[0]
+                        if n == 0:
+                            break          # explicit exit (sibling clients inherited our pipe ends: no EOF)
+                        data = b""
+                        while len(data) < n:
+                            data += os.read(r_cmd, n - len(data))
+                        os.write(fd, data)
+                        os.write(w_ack, b"k")
+                finally:
+                    os._exit(0)
+            os.close(r_cmd); os.close(w_ack)
+            clients[c] = {"pid": pid, "w": w_cmd, "r": r_ack, "alive": True}
+        model = {"file": {}, "folder": {}}
+        deleted = set()
+        P = lambda n: os.path.join(root, n)  # noqa
+        delivered = 0; killed = 0
+        for ev in case["events"]:
+            if ev[0] == "kill":
+                cl = clients[ev[1]]
+                if cl["alive"]:
+                    os.kill(cl["pid"], signal.SIGKILL); os.waitpid(cl["pid"], 0); cl["alive"] = False
+                    os.close(cl["w"]); os.close(cl["r"]); killed += 1
+                continue
+            _, c, cmd, name, rtype = ev
+            cl = clients[c]
+            if not cl["alive"]:
+                continue
+            data = _line(root, ev)
+            os.write(cl["w"], struct.pack("I", len(data)) + data)
+            assert os.read(cl["r"], 1) == b"k"
+            delivered += 1
+            if cmd == "RAW":
+                continue
+            p = P(name) if not name.isdigit() else name
+            if cmd == "REGISTER":
+                model[rtype][p] = model[rtype].get(p, 0) + 1
+            elif cmd == "UNREGISTER":
+                model[rtype].pop(p, None)
+            elif cmd == "MAYBE_UNLINK" and p in model.get(rtype, {}):
+                model[rtype][p] -= 1
+                if model[rtype][p] == 0:
+                    del model[rtype][p]; deleted.add(p)
+        for cl in clients.values():
+            if cl["alive"]:
+                os.write(cl["w"], struct.pack("I", 0))
+                os.close(cl["w"]); os.waitpid(cl["pid"], 0); os.close(cl["r"])
+        os.close(fd)                               # last write end: the tracker sees EOF
+        t_end = time.monotonic() + 30
+        alive = True
+        while time.monotonic() < t_end:
+            pid_, st = os.waitpid(tpid, os.WNOHANG)
+            if pid_:
+                alive = False; break
+            time.sleep(0.005)
+        verdict = None
+        if alive:
+            os.kill(tpid, signal.SIGKILL); os.waitpid(tpid, 0)
+            verdict = {"class": "tracker_did_not_exit", "detail": "real tracker still running 30 s after the last client was gone",
+                       "sig": {"what": "tracker_did_not_exit", "real": True}}
+        for t in model:
+            for p in model[t]:
+                deleted.add(p)
+        if verdict is None:
+            for x in FILES + FOLDERS + ["decoy", "decoydir", "decoydir/x", "bystander"]:
+                p = P(x); ex = os.path.exists(p)
+                inside = any(p.startswith(d + os.sep) for d in deleted)
+                if p in deleted and ex:
+                    verdict = {"class": "not_deleted_at_exit", "detail": "real tracker: %s still exists after every client is gone" % x,
+                               "sig": {"what": "not_deleted_at_exit", "real": True}}; break
+                if p not in deleted and not ex and not inside:
+                    verdict = {"class": "deleted_unregistered_path", "detail": "real tracker: %s was deleted but never had its count back to zero" % x,
+                               "sig": {"what": "deleted_unregistered_path", "real": True}}; break
+        dg = hashlib.sha256(repr(sorted(os.path.relpath(p, root) for p in deleted)).encode()).hexdigest()
+        return {"verdict": verdict, "digest": dg[:24], "shape": "real:" + dg[:12], "steps": delivered, "switches": 0, "sim_time": 0.0,
+                "faults": {"real_client_sigkill": killed} if killed else {}, "probes": {"real_tracker_runs": 1},
+                "nontrivial": bool(deleted), "sample": {"real": True, "events": case["events"][:6]}}
+    finally:
+        try:
+            os.chdir("/")
+        except OSError:
+            pass
+        shutil.rmtree(root, ignore_errors=True)
+
+
 def run_case(case):
+    if case.get("real"):
+        return run_real_case(case)
     from joblib.externals.loky.backend import resource_tracker as rt
     warnings.simplefilter("ignore")
     root = tempfile.mkdtemp(prefix="c20_", dir="/dev/shm")
